@@ -80,6 +80,12 @@ def run(ctx):
     proved = ok_extract and ctx.prove(props=["GqlgenVerif.Props.C03"])
     if ok_extract and not proved:
         ctx.cov["proof_failure"] = ctx.proof_failure
+    if not ok_extract:
+        # the skeleton could not be re-read (reported as a broken tie); the driver needs no Gen file,
+        # so the correspondence and the Spec still run and can produce the failing input
+        rcd, sod, sed = vf.sh(["lake", "build", "driver_c03"], cwd=vf.LEAN, timeout=3000)
+        ctx.driver_ok = rcd == 0
+        ctx.driver_log = sod + sed
 
     # ------------------------------------------------------------ sequential correspondence
     rc, so, se = ctx.harness("c03", ["-mode", "seq", "-tier", ctx.tier, "-seed", ctx.seed])
@@ -117,6 +123,8 @@ def run(ctx):
             dead_sessions.add(cur_session)      # later requests of the session start from a different state
             div.append((n, m, spec))
 
+    # report the divergences that come with a failing input (Spec violated) first
+    div.sort(key=lambda t: (not (t[2].startswith("violates") or rows[t[0]][3] != "-"), t[0]))
     for n, m, spec in div[:MAX_REPORTS]:
         r = rows[n]
         srow = rows[[i for i in range(n, -1, -1) if rows[i][0] == "S"][0]]
@@ -132,7 +140,6 @@ def run(ctx):
     # ------------------------------------------------------------ concurrent requests, judged by the Spec
     thorough = ctx.tier == "thorough"
     conc_total, conc_bad, race_reports = 0, [], []
-    kf_race = 0
     for disable in (False, True):
         for rnd in range(3 if thorough else 1):
             args = ["-mode", "conc", "-seed", str(int(ctx.seed) * 7 + rnd + (100 if disable else 0)),
